@@ -6,6 +6,10 @@ READINGS (the oracle is written under these; each is the reading under which the
   a missing voice or staff denotes 1 (also on directions), a missing alteration denotes 0, a tempo mark is its
   quarter-note tempo, a missing/empty part name is no name, a symbolic duration is what the note shows (explicit dict
   or the estimate partitura derives from the numeric duration; `dots` missing = 0), `raw_text` missing = the text,
+  (EXACTLY: the tempo written is a binary64 number, MusicXML's `tempo` attribute is a decimal of any length, and a decimal with
+  enough digits - Python's `repr`, 17 significant digits at most - is read back as the same binary64 number; so the loaded
+  quarter tempo must be the very same number, whatever its size (whole numbers beyond 2**53, values below 1e-4 where `repr`
+  uses an exponent) and however many digits it needs; `bpm`/`unit` themselves are not kept, 120.0 and 120 are the same tempo),
   an empty key mode is no mode, a tuplet that lacks one of its four values shows what the symbolic duration of its first note
   implies (that is what the file says: `<tuplet>` without `<tuplet-actual>`), an articulation is one of the sixteen elements
   MusicXML has (other strings cannot be written), a fingering is a non-negative number.
@@ -60,6 +64,13 @@ STREAMS (requests to the Lean driver drv_c03)
               pairing of wedges, dashes and pedals through `ongoing`)
   slots       the wedge (dashes) numbers in document order -> `slotAll` must give the (start, stop) pairs of those objects
   rsound/rattr the element -> `readSound`/`readAttributes` must give what _handle_sound/_handle_attributes add to a scratch part
+ the tempo as a number (Model/Binary64.lean: decimal text -> rational -> binary64 by correct rounding):
+  wsci        mantissa and exponent of the repr of a tempo below 1e-4 -> `writeSoundSci` must give the <sound> written
+  fsound      the <sound> written -> `readSoundNum` (model of float(text)) must give the binary64 number m*2^e of the bpm
+              _handle_sound made
+  wfsound     the quarter tempo m*2^e of the SCORE and the <sound> written for it -> the hypotheses of
+              tempo_number_roundtrip_exponent (normal number, well-formed literal, text inside the rounding interval of the tempo:
+              `closeTo`) and its conclusion must all hold: "the exporter wrote enough digits"
   arts / dyns the enumeration `Artic` == exporter's ARTICULATIONS == what get_articulations reads; `dynTable` == DYN_DIRECTIONS
 ORACLE (Python only): abstract(load(save(s))) == abstract(s) field by field; save(load(save(s))) == save(s);
 an independent interpretation of the written file in quarter notes (divisions, backup/forward, chord, grace, ties
@@ -95,8 +106,11 @@ TRUSTED = [
     "estimate_symbolic_duration / parse_direction / to_quarter_tempo are used as given (C12 covers the duration tables); "
     "parse_direction is opaque in the model (`DirItem.words` carries the text)",
     "Python str(int)/int(str) = showIntC/parseIntC (plain decimal forms; underscores, non-ASCII digits not modelled); "
-    "float(repr(x)) == x and repr of a non-whole float is a plain decimal (no exponent in the tempo range); re.findall(r'\\d+') "
-    "= first maximal digit run",
+    "float(text) rounds the decimal correctly to binary64 = `readFloat` (round half even of the significand in the binade found "
+    "with Nat.log2; compared with Python on every tempo: stream fsound); the range limits of binary64 (overflow, subnormals) "
+    "are not modelled; repr(x) is taken from Python: that it lies inside the rounding interval of x is evaluated on every "
+    "tempo written (stream wfsound), WHEN it switches to exponent notation is not modelled; re.findall(r'\\d+') = first "
+    "maximal digit run",
     "Python dict (ongoing, counters) as a finite map; list.sort stable",
 ]
 PARTIAL = [
@@ -106,7 +120,7 @@ PARTIAL = [
     "<note>, <direction>, <sound tempo>, <attributes>",
     "not modelled inside the modelled elements (the exporter writes none of them): <accidental> fallback for alter, <beam>, "
     "ornaments, steal-time attributes of <grace>, <transpose>, <sound> children of <direction>, octave-shift, metronome; "
-    "signed/exponent forms of the tempo attribute",
+    "float literals other than digits[.digits][e[+-]digits] (signs, blanks, E, inf, nan, underscores)",
     "wedges_paired is about `slotAll` (ongoing[(kind, number)] as a finite map), tied to _handle_direction by stream slots; that "
     "`readDirections` (the full element-by-element model, stream dirs) refines it is not proved; pedal pairing is compared only",
     "numbers_distinct speaks about the order in which the exporter meets the ranges; that document-open wedges are counter-open "
@@ -118,17 +132,26 @@ RULE = ("seeded structured scores (1-3 parts, nested groups, 1-3 staves, 1-4 voi
         "registers, chords of unequal duration, notes running past the next onset, gaps, silent measures, late entries, "
         "mid-measure division/clef/signature changes, pickups and irregular measures, tie chains over barlines, grace runs, "
         "nested/overlapping slurs and tuplets (triplets, quintuplets, nested, with and without their four values), dynamics "
-        "(constant and impulsive marks), wedges, dashes, tempo words, tempi (whole, fractional, dotted units), pedals, "
+        "(constant and impulsive marks), wedges, dashes, tempo words, tempi (gen_tempo: metronome numbers, whole numbers stored as floats, 1-6 decimals, tempi "
+        "computed from a beat period or MIDI microseconds = 17 significant digits, arbitrary doubles, whole numbers of 7+ digits "
+        "below and beyond 2**53, large non-whole, below 1, below 1e-4 (exponent notation), zero; every unit name with 0-3 dots), "
+        "pedals, "
         "repeats/endings, barline and note fermatas, all sixteen articulations and unknown ones, 1-3 fingerings, stems, explicit "
         "symbolic durations with dots and tuplet ratios, unpitched notes with noteheads, clefs with octave change and without "
-        "line, key modes, harmony) + hand-written corpus (witnesses of all repaired defects) + every tests/data/musicxml "
+        "line, key modes, harmony) + a family of one-voice scores in which every NUMBER printed is large (gen_numeric: a tempo "
+        "in every measure, divisions up to 3628800 so that durations/backup/forward have 7-8 digits, measure names, "
+        "fingerings and ending numbers of many digits, octaves 0-9, alter up to 3, time signatures 33/32, 128/128) "
+        "+ hand-written corpus (witnesses of all repaired defects) + every tests/data/musicxml "
         "fixture (load, then the same checks); distinct = distinct structural signature (parts, voices, features used, notes); "
         "non-trivial = more than two notes or two voices or a feature")
 LEVEL_TEXT = ("Lean 4 theorems over all measure contents / event streams about executable models of the exporter's measure "
               "linearisation and voice clean-up, of an independent MusicXML measure reader and of the importer's reader, of "
               "range numbering, pairing by number (slurs, tuplets, wedges, dashes) and tie pairing, and over all field values "
               "about the element codecs of <note>, <direction>, <sound tempo> and <attributes> (what the importer extracts from "
-              "the element the exporter writes is exactly what the object denotes); the models are tied to partitura by "
+              "the element the exporter writes is exactly what the object denotes), and over all binary64 numbers and "
+              "rationals about the decimal-text round trip of a tempo (correct rounding returns the number in whose rounding "
+              "interval the text lies, 17 significant digits always lie in it, a text further than half an ulp away is read "
+              "as another number); the models are tied to partitura by "
               "differential runs on generated scores (writer models vs. the elements and bytes written, reader models vs. "
               "load_musicxml, vs. the importer's own handlers on scratch parts and vs. the score, the theorems' hypotheses "
               "evaluated on every measure and element, the constant tables compared with the live ones), and the round trip "
@@ -824,6 +847,32 @@ def _qtempo(o):
         return "err:%s" % type(e).__name__
 
 
+def tempo_report(s, s2, xml_bytes):
+    """where a tempo was damaged (diagnosis only, no verdict): the quarter tempi of the score, the decimal texts in the file
+    with the binary64 number each denotes (own reading: exact rational of the text, correctly rounded), the loaded tempi"""
+    import partitura.score as S
+    from lxml import etree
+
+    def q(o):
+        v = _qtempo(o)
+        return repr(float(v)) if isinstance(v, Fraction) else v
+
+    try:
+        before = [[(o.start.t, q(o)) for o in p.iter_all(S.Tempo)] for p in s.parts]
+        after = [[(o.start.t, q(o)) for o in p.iter_all(S.Tempo)] for p in s2.parts]
+        texts = []
+        for e in etree.fromstring(xml_bytes).iter("sound"):
+            t = e.get("tempo")
+            if t is not None:
+                try:
+                    texts.append("%s (denotes %r)" % (t, float(Fraction(t))))
+                except (ValueError, OverflowError, ZeroDivisionError):
+                    texts.append("%s (not a decimal)" % t)
+        return " -- quarter tempi of the score %s; <sound tempo> in the file: %s; loaded %s" % (_short(before), _short(texts), _short(after))
+    except Exception as e:  # a diagnosis must not hide the failure
+        return " -- (no tempo diagnosis: %s)" % type(e).__name__
+
+
 def _structure(ps):
     import partitura.score as S
 
@@ -1185,11 +1234,37 @@ def tempo_tokens(q):
     return "d %s %s" % (ip, _enc(fp))
 
 
+def tempo_sci_tokens(q):
+    """mantissa (TempoVal) and exponent of the `repr` of a non-whole float in exponent notation; None = another form"""
+    r = repr(float(q))
+    if "e" not in r or "n" in r or r.startswith("-"):
+        return None
+    mant, _, ex = r.partition("e")
+    if "." in mant:
+        ip, fp = mant.split(".")
+        return "d %s %s %d" % (ip, _enc(fp), int(ex))
+    return "i %s %d" % (mant, int(ex))
+
+
 def tempo_text(bpm):
     if isinstance(bpm, int):
         return "i:%d" % bpm
     ip, fp = repr(float(bpm)).split(".")
     return "d:%s:%s" % (ip, _enc(fp))
+
+
+def dbl_me(x):
+    """(m, e) with x == m * 2**e and 2**52 <= m < 2**53: the binary64 number as Model/Binary64.lean carries it
+    (None for zero, negative, subnormal and non-finite numbers)"""
+    import math
+
+    x = float(x)
+    if not x > 0 or math.isinf(x) or x < 2.0 ** -1022:
+        return None
+    f, ex = math.frexp(x)  # x == f * 2**ex, 0.5 <= f < 1
+    m = int(f * 2 ** 53)
+    assert Fraction(m) * Fraction(2) ** (ex - 53) == Fraction(*x.as_integer_ratio())
+    return m, ex - 53
 
 
 def dir_writer_streams(ev, src, res, X):
@@ -1204,10 +1279,22 @@ def dir_writer_streams(ev, src, res, X):
     for (kind, d), (_, _, el) in zip(src, res):
         try:
             if kind == "sound":
-                tt = tempo_tokens(to_quarter_tempo("q" if d.unit is None else d.unit, d.bpm))
+                q = to_quarter_tempo("q" if d.unit is None else d.unit, d.bpm)
+                tt = tempo_tokens(q)
                 if tt is not None:
                     ev.requests.append("wsound " + tt)
                     ev.impl.append(xml_text(el) + "/1")
+                else:
+                    ts = tempo_sci_tokens(q)  # exponent notation (repr of a float below 1e-4)
+                    if ts is not None:
+                        ev.requests.append("wsci " + ts)
+                        ev.impl.append(xml_text(el) + "/1")
+                # wfsound: the hypotheses of tempo_number_roundtrip on the element written (the quarter tempo m * 2**e of the
+                # score is normal, the text written is a well-formed decimal inside its rounding interval) and its conclusion
+                me = dbl_me(q)
+                if me is not None and el.get("tempo") is not None:
+                    ev.requests.append("wfsound %d %d %s" % (me[0], me[1], " ".join(xml_tokens(el))))
+                    ev.impl.append("1/1/1/1")
                 continue
             text = d.raw_text or d.text
             nums = [int(x.get("number")) for x in el.iter("wedge", "dashes")]
@@ -1339,10 +1426,14 @@ def reader_streams(ev, wms):
                 scratch = S.Part("scratch", quarter_duration=1)
                 I._handle_sound(el, 0, scratch)
                 ts = list(scratch.iter_all(S.Tempo))
-                if "e" in (el.get("tempo") or "").lower():
-                    continue  # exponent notation: not modelled
-                ev.requests.append("rsound " + " ".join(xml_tokens(el)))
-                ev.impl.append(tempo_text(ts[0].bpm) if ts else "-")
+                if "e" not in (el.get("tempo") or "").lower():
+                    # the decimal read as text (exponent notation: only as a number, fsound)
+                    ev.requests.append("rsound " + " ".join(xml_tokens(el)))
+                    ev.impl.append(tempo_text(ts[0].bpm) if ts else "-")
+                # fsound: the NUMBER read (model of float(text): correct rounding to binary64) == the importer's bpm
+                if ts and (ts[0].bpm == 0 or dbl_me(ts[0].bpm) is not None):
+                    ev.requests.append("fsound " + " ".join(xml_tokens(el)))
+                    ev.impl.append("0:0" if ts[0].bpm == 0 else "%d:%d" % dbl_me(ts[0].bpm))
             elif el.tag == "attributes":
                 scratch = S.Part("scratch", quarter_duration=977)
                 scratch.add(S.Measure(), 0, 8)  # a time point after 5, so that the quarter duration at 5 is visible
@@ -1680,7 +1771,8 @@ def _check_roundtrip(ev, s, what, streams, from_file):
     _relax_voices(a1, a2, s, clean_sets, fail)
     for dline in diff_abstract(a1, a2)[:6]:
         field = dline.split(":")[0].split("/")[-1]
-        fail("roundtrip/%s: abstract(load(save(s))) != abstract(s) at %s" % (field, dline))
+        extra = tempo_report(s, s2, x1) if field == "tempi" else ""
+        fail("roundtrip/%s: abstract(load(save(s))) != abstract(s) at %s%s" % (field, dline, extra))
     # derived ends on the imported score
     for p in s2.parts:
         for msg in check_derived_ends(p):
